@@ -226,7 +226,8 @@ CHECKS["C17"] = dict(
          "validation results after any operation, acceptable or not, including a half-finished extend, along whole histories "
          "(induction); rejected single-element insertions leave list and dict unchanged (C06). Correspondence three-way: the real proxy, "
          "a plain built-in replaying the history with field-validated arguments, and the model; result types of copy and + checked."
-         " Continuation (Props/C17b.lean): the typed dict holds only validation results after every operation, accepted or rejected, along whole histories (dict counterpart of list_inv), keys stay duplicate-free.",
+         " Continuation (Props/C17b.lean): the typed dict holds only validation results after every operation, accepted or rejected, along whole histories (dict counterpart of list_inv), keys stay duplicate-free."
+         " Props/C17c.lean (model Proxy/CopyDepth.lean): a copy of a typed list of lists is one level deep — it holds the same inner list objects, edits of an inner list show through the original and every copy, edits of one outer list are private to it; histories compared with real typed lists and built-in lists.",
     note="Cinco/Proxy/PyList.lean and the association-list dict are hand-written specifications of CPython's list/dict, validated "
          "three-way. sort, slice deletion and the non-mutating queries are inherited unchanged and checked by the stream only. "
          "proxy * k, plain + proxy and proxy | mapping return plain built-ins by Python's own dispatch (observation).",
